@@ -42,9 +42,9 @@ type Call struct {
 
 // SourcePlan programs a Source.
 type SourcePlan struct {
-	Chunk       int               `json:"chunk,omitempty"`        // cap on bytes per Read (0 = no cap)
-	Dev         map[int]Deviation `json:"deviations,omitempty"`   // by call index
-	StickyFrom  int               `json:"sticky_from,omitempty"`  // all calls >= this index fail (0 = off; use index+1)
+	Chunk       int               `json:"chunk,omitempty"`       // cap on bytes per Read (0 = no cap)
+	Dev         map[int]Deviation `json:"deviations,omitempty"`  // by call index
+	StickyFrom  int               `json:"sticky_from,omitempty"` // all calls >= this index fail (0 = off; use index+1)
 	StickyKind  string            `json:"sticky_kind,omitempty"`
 	EOFWithData bool              `json:"eof_with_data,omitempty"` // a read that reaches the end returns n>0 together with io.EOF
 	ByteReader  bool              `json:"byte_reader,omitempty"`
